@@ -197,6 +197,13 @@ Lemma std_none_or_single ht :
   standard_hash_type ht = true ->
   ht_none_or_single ht = Legacy.hash_none ht || Legacy.hash_single ht.
 Proof. intros H. std_destruct H; reflexivity. Qed.
+(* the legacy and BIP143 builders mask with 0x1f like the specifications: no hypothesis needed *)
+Lemma base5_single ht : (ht_base5 ht =? 3) = Legacy.hash_single ht.
+Proof. reflexivity. Qed.
+Lemma base5_none ht : (ht_base5 ht =? 2) = Legacy.hash_none ht.
+Proof. reflexivity. Qed.
+Lemma base5_none_or_single ht : ht_none_or_single5 ht = Legacy.hash_none ht || Legacy.hash_single ht.
+Proof. reflexivity. Qed.
 Lemma acp_eq ht : ht_acp ht = Legacy.anyone_can_pay ht.
 Proof. reflexivity. Qed.
 Lemma std_none_single_excl ht :
